@@ -199,7 +199,7 @@ h!(c06_pixels_n3, 10, pixels_h::<3, 6>());
 h!(c06_repeated_n2, 10, repeated_h::<2>(6));
 //@ props=C06,C20 inst="SpiInterface::send_repeated_pixel::<3>" bounds="buffer length 3..=8, count 0..=6" timeout=600 mem=4
 h!(c06_repeated_n3, 10, repeated_h::<3>(6));
-//@ props=C12 inst="SpiInterface, N=2: send_command / send_pixels / send_repeated_pixel" bounds="symbolic index of the failing low-level operation; args <= 4, <= 4 pixels, buffer 2..=8" timeout=600 mem=4
+//@ props=C12 inst="SpiInterface, N=2: send_command / send_pixels / send_repeated_pixel" bounds="symbolic index of the failing low-level operation; args <= 4, <= 4 pixels, buffer 2..=8" timeout=900 mem=8
 h!(c12_spi_fault_n2, 10, fault_h::<2>());
-//@ props=C12 inst="SpiInterface, N=3" bounds="same" timeout=600 mem=4
+//@ props=C12 inst="SpiInterface, N=3" bounds="same" timeout=900 mem=8
 h!(c12_spi_fault_n3, 10, fault_h::<3>());
